@@ -56,6 +56,7 @@ func pureTypeKeyExpr(e ast.Expr, info *types.Info) bool {
 
 func (ns *normState) planFolds() editSet {
 	es := editSet{}
+	addedImport := map[string]bool{}
 	for _, pk := range ns.pkgs {
 		info := pk.TypesInfo
 		type cand struct {
@@ -134,6 +135,7 @@ func (ns *normState) planFolds() editSet {
 				return true
 			})
 			okAll := true
+			var importEdits []func()
 			for _, u := range uses {
 				f := useFile[u]
 				have := map[string]string{}
@@ -146,6 +148,26 @@ func (ns *normState) planFolds() editSet {
 					have[name] = p
 				}
 				for n, p := range need {
+					if have[n] == "" {
+						// not imported in the using file: the import is added (once per file and name)
+						k := ns.fset.Position(f.Pos()).Filename + "|" + n
+						{
+							at := f.Name.End()
+							for _, d := range f.Decls {
+								if gd, ok := d.(*ast.GenDecl); ok && gd.Tok == token.IMPORT {
+									at = gd.End()
+								}
+							}
+							n, p := n, p
+							importEdits = append(importEdits, func() {
+								if !addedImport[k] {
+									addedImport[k] = true
+									es.add(ns.fset, at, at, "; import "+n+" \""+p+"\"")
+								}
+							})
+						}
+						continue
+					}
 					if have[n] != p {
 						okAll = false
 					}
@@ -155,6 +177,9 @@ func (ns *normState) planFolds() editSet {
 			}
 			if !okAll {
 				continue
+			}
+			for _, ie := range importEdits {
+				ie()
 			}
 			for _, u := range uses {
 				es.add(ns.fset, u.Pos(), u.End(), "("+src+")")
